@@ -115,7 +115,9 @@ def run(ctx):
     for tag in ("Copyright", "Copyright (C)", "©", "SPDX-SnippetCopyrightText:", "SPDX-FileCopyrightText: ©"):
         conds.append(xh.Cond(f"cop tag {tag!r}, Python: single-line, one free char at end", "C02.py", "_tag", {"kind": "cop", "cop_tag": tag, "left": "# ", "right": "", "carrier": CARRIERS["cop"], "hole": "end", "nfree": 1, "carve": carve}, timeout=tmo, twin="_tag_reach"))
     conds.append(xh.Cond("4 KiB window and snippet marker", "C02.py", "_win", {"carve": carve}, timeout=tmo, twin="_win_reach"))
-    conds.append(xh.Cond("snippet marker found at any offset around a 4096-byte block boundary", "C02.py", "_marker", {}, timeout=tmo, twin="_marker_reach"))
+    for base in (4096, 8192, 16384, 32768, 65536, 131072, 1048576) if tier == "thorough" else (8192, 65536):
+        conds.append(xh.Cond(f"snippet marker found at any offset around byte {base} (a plausible read-block boundary)", "C02.py", "_marker", {"marker_base": base}, timeout=tmo, twin="_marker_reach"))
+    conds.append(xh.Cond("copyright notices on lines separated by CR / VT / FF / FS / GS / RS / NEL / LS / PS are read one per line", "C02.py", "_sep", {}, timeout=tmo, twin="_sep_reach"))
     ctx.functions_encoded = [
         "reuse.extract.find_spdx_tag",
         "reuse.extract._LICENSE_IDENTIFIER_PATTERN / _CONTRIBUTOR_PATTERN / _COPYRIGHT_PATTERNS / _END_PATTERN (real compiled patterns; PYRE on symbolic subjects)",
@@ -127,7 +129,7 @@ def run(ctx):
         "window": "tag line placed at every offset from 4096-60 to 4096+7, with/without a snippet marker before or after",
     }
     ctx.stubs = ["module-level pattern objects wrapped in PyRe", "Path(...).open replaced by an in-memory stream; relative_from_root stubbed", "licence parsing native on concrete strings"]
-    ctx.outside = ["values with more than two free characters", "bytes that are not valid UTF-8 (C codec)", "CR / CRLF folding (decoded_text_from_binary's replace is C-level on concrete text)"]
+    ctx.outside = ["values with more than two free characters", "bytes that are not valid UTF-8 (C codec)", "licence/contributor tags in CR-only files (the MULTILINE patterns do not end a line at a lone CR; copyright notices are checked for every separator)"]
     ctx.assumptions = [f"PYRE == re on {n} comparisons this run", "value grammar: one line (no str.splitlines boundary), stripped"]
 
     def confirm(c, ex):
@@ -137,6 +139,8 @@ def run(ctx):
                 return None
             key = ex.get("known_key") or f"tag:{ex['kind']}:{ex['line']!r}"
             return key, f"line {ex['line']!r} is read as {ex['got']} instead of {ex['expected']}", w
+        if c.func == "_sep":
+            return f"separator:{ex['separator']}", f"text {ex['text']!r}: copyright notices read as {ex['got']}, expected {ex.get('expected')}", {"harness": "C02.py::_sep", "explain": ex}
         if c.func == "_marker":
             return f"marker:{ex['marker_at'] % 4096}", f"snippet marker at byte {ex['marker_at']} of {ex['size']}: tag after it read as {ex['got']}", {"harness": "C02.py::_marker", "explain": ex}
         straddle = ex["offset_of_tag"] < 4096 < ex["tag_end"]
